@@ -16,6 +16,11 @@ import Proofs.Types
 import Proofs.TypesRound
 import Proofs.JsonRound
 import Proofs.TypesAgree
+import Martian.JsonBytes
+import Proofs.JsonBytes
+import Proofs.JsonBytesFilter
+import Proofs.JsonBytesLocal
+import Proofs.JsonBytesParseA
 import Gen.Facts
 
 namespace Props.C17
@@ -74,16 +79,53 @@ example : tN.wf = true ∧
 
 /-! ### 2. filtering changes nothing except dropping members / int rewriting -/
 
-/-- Whenever filtering does not fail fatally, the result is the input up to
-dropped (and reordered) object members and integral floats rewritten as
-`int64` literals (`Drops`).  (A fatal result may contain `null` for a missing
-declared member, hence the hypothesis.) -/
-theorem filter_only_drops (t : Ty) (v : J) (h : (filter t v).2 ≠ .fatal) :
+/-- UPPER BOUND only (audit C17-M1): whenever filtering does not fail fatally, every member of the
+result stems from a member of the input with that key, up to integral floats rewritten as `int64`
+literals (`Drops` is type-agnostic: it does not say which members are kept – emptying every object
+would satisfy it).  The exact statement is `filter_exactly_drops` below.
+`_partial` (audit C17-M2): for fatal results the statement is false – a missing declared member is
+written as `null` (`filter_fatal_adds_null`). -/
+theorem filter_only_drops_partial (t : Ty) (v : J) (h : (filter t v).2 ≠ .fatal) :
     Drops (filter t v).1 v :=
   Martian.Types.filter_drops t v h
 
 /-- non-vacuity: a soft (non-fatal) filtering that drops a member and rewrites `1.0` -/
 example : (filter tA (.obj [(kx, .null), (ka, .num (.flt 10 (-1)))])).2 = .soft := by decide
+
+/-- EXACTLY WHAT IS DROPPED (audit C17-M1): a non-fatal result of filtering `v` to `t` is `v` with
+nothing changed where the type cannot filter; at `int` an `int64` literal kept and any other numeral
+rewritten only to the integer its value is (within `int64`); arrays of the same length and typed
+maps with the same keys in the same order, members filtered pointwise at the element type; and a
+struct turned into EXACTLY its declared members in declaration order, each taken from the input (last
+wins) and filtered at the member's type (copied where that type cannot filter).  So the only thing
+ever removed is an undeclared struct member (`DropsT`, Martian/Types.lean: a typed relation; a filter
+that empties objects, duplicates members, keeps a shadowed duplicate or rewrites a float-typed number
+does NOT satisfy it). -/
+theorem filter_exactly_drops (t : Ty) (v : J) (h : (filter t v).2 ≠ .fatal) :
+    DropsT exactRewrite t (filter t v).1 v :=
+  Martian.Types.filter_dropsT t v h
+
+/-- the typed relation really is tight: emptying a typed map, or rewriting a number at `float`, is
+not allowed -/
+example : ¬ DropsT exactRewrite (.tmap (.base .int)) (.obj []) (.obj [(ka, .num (.int 1))]) := by
+  intro h
+  cases h with
+  | tmap _ _ _ _ hm => cases hm
+example : ¬ DropsT exactRewrite (.base .float) (.num (.int 1)) (.num (.flt 10 (-1))) := by
+  intro h; cases h
+
+/-- negative witness for the `≠ fatal` hypothesis (audit C17-M2): filtering `{}` to `struct A(int a)`
+is fatal and ADDS a member `"a": null`, which is no `Drops` of the input -/
+theorem filter_fatal_adds_null :
+    (filter tA (.obj [])).2 = .fatal ∧ ¬ Drops (filter tA (.obj [])).1 (.obj []) := by
+  refine ⟨by decide, ?_⟩
+  have : (filter tA (.obj [])).1 = .obj [(ka, .null)] := by rfl
+  rw [this]
+  intro h
+  cases h with
+  | obj ho =>
+    cases ho with
+    | cons hm _ _ => cases hm
 
 /-- A type that cannot filter (`CanFilter() == false`) returns its input unchanged. -/
 theorem filter_unchanged_of_not_canFilter (t : Ty) (v : J) (h : canFilter t = false) :
@@ -105,7 +147,7 @@ theorem valid_null (t : Ty) : valid t .null = true :=
   Martian.Types.valid_null t
 
 /-- Clean validation accepts exactly the values of the declared shape
-(`Shape` is the independent declarative description in Martian/Types.lean). -/
+(`Shape` is the separately written declarative description (it shares the helper functions `isDirMap`, `legalName`, `getKey`, `Num.inInt64` with `check`: independence is of the recursion, not of those helpers) in Martian/Types.lean). -/
 theorem valid_iff_shape (t : Ty) (v : J) : valid t v = true ↔ Shape t v :=
   ⟨shape_of_valid t v, valid_of_shape t v⟩
 
@@ -125,11 +167,6 @@ example :
 theorem assignable_refl (t : Ty) (hwf : t.wf = true) : assignable t t = true :=
   Martian.Types.assignable_refl t hwf
 
-/-- arrays: exactly when it holds for the elements (one dimension) -/
-theorem assignable_array_iff (a b : Ty) :
-    assignable (.arr a) (.arr b) = assignable a b := by
-  simp [assignable]
-
 /-- arrays in Go's `ArrayType{Elem, Dim}` form: equal dimension and assignable elements -/
 theorem assignable_array_dim_iff (a b : Ty) (ha : notArr a = true) (hb : notArr b = true)
     (n m : Nat) :
@@ -137,11 +174,6 @@ theorem assignable_array_dim_iff (a b : Ty) (ha : notArr a = true) (hb : notArr 
   assignable_arrN a b ha hb n m
 
 example : notArr (.tmap (.arr (.base .int))) = true ∧ notArr tA = true := by decide
-
-/-- typed maps: exactly when it holds for the element types -/
-theorem assignable_map_iff (a b : Ty) :
-    assignable (.tmap a) (.tmap b) = assignable a b := by
-  simp [assignable]
 
 /-- structs, direction "only if": every member of the destination exists in
 the source with an assignable type. -/
@@ -172,6 +204,20 @@ theorem assignable_struct_components_not_sufficient :
     assignable (.base .map) (.tmap (.base .int)) = true ∧
     assignable (.struct [0x42] (.cons km (.base .map) .nil))
                (.struct [0x43] (.cons km (.tmap (.base .int)) .nil)) = false := by decide
+
+/-! ### definitional unfoldings (documentation of the model, not guarantees) -/
+
+/-- arrays (one dimension): by definition of the model; the rule itself is tied to
+`ArrayType.IsAssignableFrom` by the differential harness, the substantive statement is
+`assignable_array_dim_iff` -/
+theorem assignable_array_iff (a b : Ty) :
+    assignable (.arr a) (.arr b) = assignable a b := by
+  simp [assignable]
+
+/-- typed maps: by definition of the model (tied to `TypedMapType.IsAssignableFrom` by correspondence) -/
+theorem assignable_map_iff (a b : Ty) :
+    assignable (.tmap a) (.tmap b) = assignable a b := by
+  simp [assignable]
 
 /-! ### 5. the central statement -/
 
@@ -418,9 +464,41 @@ theorem filter_idem_round (t : Ty) (hwf : t.wf = true) (v : J) :
 /-- filtering changes nothing except dropping undeclared members and rewriting
 a numeral that is no `int64` literal as the integer its float64 rounding is
 (`Drops.int n i : n.goInt? = some i`) -/
-theorem filter_only_drops_round (t : Ty) (v : J) (h : (Martian.TypesR.filter t v).2 ≠ .fatal) :
+theorem filter_only_drops_round_partial (t : Ty) (v : J) (h : (Martian.TypesR.filter t v).2 ≠ .fatal) :
     Martian.TypesR.Drops (Martian.TypesR.filter t v).1 v :=
   Martian.TypesR.filter_drops t v h
+
+/-- EXACTLY what is dropped, rounded numerals: as `filter_exactly_drops`, the `int` rewrite being the
+code's (`n.goInt? = some i`: the ROUNDED value) -/
+theorem filter_exactly_drops_round (t : Ty) (v : J) (h : (Martian.TypesR.filter t v).2 ≠ .fatal) :
+    DropsT (fun n i => n.goInt? = some i) t (Martian.TypesR.filter t v).1 v :=
+  Martian.TypesR.filter_dropsT t v h
+
+/-- struct positions: exactly the declared members in declaration order (rounded model) -/
+theorem filter_struct_members_round (n : Bytes) (fs : Fields) (kvs : List (Bytes × J)) :
+    ∃ out, (Martian.TypesR.filter (.struct n fs) (.obj kvs)).1 = .obj out ∧
+      out.map Prod.fst = fs.toList.map Prod.fst :=
+  ⟨_, Martian.TypesR.filter_struct_fst n fs kvs, by simp [List.map_map, Function.comp_def]⟩
+
+/-- same type: a clean value stays clean after filtering (rounded model) -/
+theorem filter_valid_self_round (t : Ty) (hwf : t.wf = true) (v : J) (h : Martian.TypesR.valid t v = true) :
+    Martian.TypesR.valid t (Martian.TypesR.filter t v).1 = true :=
+  Martian.TypesR.valid_of_shape _ _ (Martian.TypesR.shape_filter_of_assignable t hwf t v
+    (Martian.TypesR.shape_of_valid t v h) (Martian.Types.assignable_refl t hwf) (Martian.Types.noHole_refl t hwf))
+
+/-- narrowing chain (rounded model) -/
+theorem filter_narrow_chain_round (d s : Ty) (v : J) (hd : d.wf = true) (hs : s.wf = true)
+    (hv : Martian.TypesR.valid s v = true) (ha : assignable d s = true) (hp : pureNarrow d s = true) :
+    (Martian.TypesR.filter d (Martian.TypesR.filter s v).1).1 = (Martian.TypesR.filter d v).1 :=
+  Martian.TypesR.filter_chain d hd s v hs hv ha hp
+
+/-- struct positions are last-wins (rounded model) -/
+theorem struct_last_wins_round (n : Bytes) (fs : Fields) (kvs : List (Bytes × J)) :
+    Martian.TypesR.valid (.struct n fs) (.obj kvs) = Martian.TypesR.valid (.struct n fs) (.obj (dedupLast kvs))
+    ∧ Martian.TypesR.filter (.struct n fs) (.obj kvs) = Martian.TypesR.filter (.struct n fs) (.obj (dedupLast kvs)) := by
+  constructor
+  · simp [Martian.TypesR.valid, Martian.TypesR.check, Martian.TypesR.checkFields_dedupLast]
+  · simp [Martian.TypesR.filter, Martian.TypesR.filterFields_dedupLast]
 
 /-- clean validation accepts exactly the declared shape, floats being finite in binary64 -/
 theorem valid_iff_shape_round (t : Ty) (v : J) : Martian.TypesR.valid t v = true ↔ Martian.TypesR.Shape t v :=
@@ -531,5 +609,137 @@ example : Martian.TypesR.NumsExact (.obj [(ka, .num (.flt 10 (-1))),
     rcases hx with rfl | rfl | rfl <;> exact .num _ (by decide +kernel)
 
 end Rounded
+
+
+/-! ### 10. bytes: the JSON value grammar, and the splicing the filters really do
+
+`FilterJson` never builds a tree: it asks `encoding/json` for the raw slices of the members,
+filters each slice and either returns its input slice (when every member came back as the same
+slice) or concatenates brackets, member slices, commas, colons and re-encoded keys.
+Martian/JsonBytes.lean models the value grammar `encoding/json` accepts as a total byte parser
+(`parseV` / `parseTop`, tree = `J`), a canonical printer (`printJ`), and the filters as functions
+on raw messages (`filterA` on the annotated parse tree `A`; `filterBytes` on bytes).  `Den p j`
+(Proofs/JsonBytes.lean) = "the bytes `p`, followed by anything that may follow a value, are read
+as the tree `j` and nothing more is consumed". -/
+section Bytes
+open Martian.JsonBytes
+
+/-- the parser reads the canonical text of every tree back (strings and keys valid UTF-8) -/
+theorem json_parse_print (j : J) (h : wfJ j = true) : parseTop (printJ j) = some j :=
+  parseTop_printJ j h
+
+/-- … so the canonical printer is injective: equal bytes, equal trees -/
+theorem json_print_injective (j1 j2 : J) (h1 : wfJ j1 = true) (h2 : wfJ j2 = true)
+    (h : printJ j1 = printJ j2) : j1 = j2 :=
+  printJ_injective j1 j2 h1 h2 h
+
+/-- numbers are kept as written: `parseNum (printNum n ++ rest) = (n, rest)` before any delimiter -/
+theorem json_number_roundtrip (n : Num) (rest : Bytes) (hr : delim rest = true) :
+    parseNum (printNum n ++ rest) = some (n, rest) :=
+  parseNum_printNum n rest hr
+
+/-- THE SPLICE LEMMAS.  An array written as `[` pieces separated by `,` `]` denotes the array of
+the trees the pieces denote – whatever the pieces are (re-encoded or untouched input slices with
+their own white space) … -/
+theorem splice_array_denotes (ps : List Bytes) (js : List J) (h : All2 Den ps js) :
+    Den (spliceArr ps) (.arr js) :=
+  den_spliceArr ps js h
+
+/-- … and an object written as `{` keyToken `:` piece `,` … `}` denotes the object of the decoded
+keys and the trees of the pieces. -/
+theorem splice_object_denotes (ms : List (Bytes × Bytes)) (kvs : List (Bytes × J)) (h : All2 DenM ms kvs) :
+    Den (spliceObj ms) (.obj kvs) :=
+  den_spliceObj ms kvs h
+
+/-- SPLICE CORRECTNESS OF `FilterJson` (all types, all raw messages): if the input message is
+sound (every node's raw bytes denote that node's tree – what `encoding/json` hands out), then so is
+the returned message, on the fast path (input slice returned) and on every re-encoding path
+(array, typed map with `sort.Strings` keys and last-wins duplicates, struct with declared members
+in declaration order, `int` rewritten by `json.Marshal`). -/
+theorem filter_bytes_sound (t : Ty) (hk : tyKeysOk t = true) (a : A) (h : ASound a) :
+    ASound (filterA t a).out :=
+  sound_filterA t hk a h
+
+/-- … in particular the bytes returned parse, as a whole document, to the tree returned -/
+theorem filter_bytes_parse (t : Ty) (hk : tyKeysOk t = true) (a : A) (h : ASound a) :
+    parseTop (filterA t a).out.raw = some (filterA t a).out.toJ :=
+  parseTop_of_den (sound_filterA t hk a h).den
+
+/-- LOCALITY (why `json.RawMessage` slices mean anything): the bytes the parser consumed for a
+value – whatever white space, escapes, duplicate keys or nesting they contain – denote that value
+on their own: followed by anything that may follow a value, they are read as the same tree.  So
+the slice `encoding/json` hands out for a member re-parses to the member's tree. -/
+theorem json_slices_denote (f : Nat) (b : Bytes) (j : J) (r : Bytes) (h : parseV f b = some (j, r)) :
+    Den (consumed (skipWs b) r) j :=
+  parseV_local f b j r h
+
+/-- strings and keys the JSON decoder returns are always valid UTF-8 (invalid input is coerced to
+U+FFFD), so re-encoding a decoded key and reading it back gives the same key -/
+theorem json_decoded_strings_valid (t k r : Bytes) (h : parseStr t = some (k, r)) :
+    Martian.ShellQuote.validUtf8 k = true :=
+  parseStr_valid t k r h
+
+/-- every document the grammar accepts is annotated soundly (no side condition): at every node
+of `parseTopA data` the recorded raw slice denotes the node's tree -/
+theorem json_annotation_sound (data : Bytes) (a : A) (h : parseTopA data = some a) : ASound a :=
+  sound_of_parseTopA data a h
+
+/-- FILTER BYTES, for ALL types (member names valid UTF-8) and ALL inputs the grammar accepts: the
+bytes `FilterJson` returns – input slice or re-encoded containers, at any depth – are a JSON
+document, namely the document of the tree the model returns.  (This turns the former
+"the output must parse and be tree-equal to the model's" correspondence into a theorem about the
+byte-level model `filterBytes`, which is itself compared byte for byte with the real `FilterJson`
+on every case of every run.) -/
+theorem filter_bytes_document (t : Ty) (hk : tyKeysOk t = true) (data out : Bytes) (e : FErr)
+    (h : filterBytes t data = some (out, e)) :
+    ∃ a, parseTopA data = some a ∧ out = (filterA t a).out.raw
+      ∧ parseTop out = some (filterA t a).out.toJ :=
+  filterBytes_parses t hk data out e h
+
+/-- FILTER BYTES = FILTER TREE (the link to sections 1–9): for every well-formed type and every
+input the grammar accepts, if `FilterJson` does not fail fatally, the bytes it returns parse to a
+tree that is – as a decode into Go maps / a Python dict sees it (`EqL`: per key the last member
+wins; member order and shadowed duplicates are invisible) – the rounded-numeral tree model's
+`filter` of the tree the input parses to.  So idempotence, only-drops, filter-valid-of-assignable
+… proved for `Martian.TypesR.filter` are statements about the bytes the real splicing produces. -/
+theorem filter_bytes_tree (t : Ty) (hwf : t.wf = true) (hk : tyKeysOk t = true) (data out : Bytes) (e : FErr)
+    (h : filterBytes t data = some (out, e)) (hne : e ≠ .fatal) :
+    ∃ j0 j, parseTop data = some j0 ∧ parseTop out = some j ∧ EqL j (Martian.TypesR.filter t j0).1 :=
+  filterBytes_tree t hwf hk data out e h hne
+
+/-- `EqL` is reflexive, and it really forgets order: `{"a":1,"b":2}` and `{"b":2,"a":0,"a":1}` -/
+example : EqL (.obj [(ka, .num (.int 1)), (kb, .num (.int 2))])
+    (.obj [(kb, .num (.int 2)), (ka, .num (.int 0)), (ka, .num (.int 1))]) := by
+  refine .obj (by intro k; simp only [getKey]; split <;> split <;> simp_all) ?_
+  intro k v1 v2 h1 h2
+  simp only [getKey] at h1 h2
+  by_cases hb : kb = k
+  · subst hb
+    simp at h1 h2
+    obtain rfl := h1; obtain rfl := h2; exact EqL.refl _
+  · by_cases ha : ka = k
+    · subst ha
+      simp at h1 h2
+      obtain rfl := h1; obtain rfl := h2; exact EqL.refl _
+    · simp [ha, hb] at h1
+
+/-- non-vacuity / witnesses, on bytes: `struct A(int a)` filters `{ "x":null, "a" : 1.0 }` to
+`{"a":1}` (re-encoded: member dropped, number rewritten) and returns `{ "a" : 1 }` untouched,
+white space included (fast path) -/
+example : (filterBytes tA [0x7B, 0x20, 0x22, 0x78, 0x22, 0x3A, 0x6E, 0x75, 0x6C, 0x6C, 0x2C, 0x20, 0x22, 0x61,
+      0x22, 0x20, 0x3A, 0x20, 0x31, 0x2E, 0x30, 0x20, 0x7D])
+    = some ([0x7B, 0x22, 0x61, 0x22, 0x3A, 0x31, 0x7D], .soft) := by decide +kernel
+example : (filterBytes tA [0x7B, 0x20, 0x22, 0x61, 0x22, 0x20, 0x3A, 0x20, 0x31, 0x20, 0x7D])
+    = some ([0x7B, 0x20, 0x22, 0x61, 0x22, 0x20, 0x3A, 0x20, 0x31, 0x20, 0x7D], .ok) := by decide +kernel
+/-- a sound message: the literal `1.0` with its tree -/
+example : ASound (.lit (printNum (.flt 10 (-1))) (.num (.flt 10 (-1)))) := .lit _ _ (den_num _)
+/-- the grammar is `encoding/json`'s: leading zeros, trailing commas, raw control bytes, garbage
+after the value are rejected; white space and duplicate keys are accepted -/
+example : parseTop [0x5B, 0x30, 0x31, 0x5D] = none ∧ parseTop [0x5B, 0x31, 0x2C, 0x5D] = none
+    ∧ parseTop [0x22, 0x01, 0x22] = none ∧ parseTop [0x31, 0x20, 0x32] = none
+    ∧ (parseTop [0x20, 0x5B, 0x0A, 0x31, 0x09, 0x5D, 0x0D]).map printJ = some [0x5B, 0x31, 0x5D] := by
+  decide +kernel
+
+end Bytes
 
 end Props.C17
